@@ -1,9 +1,10 @@
 #!/bin/bash
 # run_all.sh [quick|thorough] [seed] : run every claimed check's command from MANIFEST.json one after the other,
 # print one line per check (exit status, wall seconds, summary line).  Evidence goes to $VERIF_EVIDENCE_DIR if set.
+# RUN_ALL_ONLY="C24 C25" restricts the pass to the named checks.
 cd "$(dirname "$0")/.."
 tier="${1:-quick}"; seed="${2:-0}"
-for id in $(python3 -c "import json;print(' '.join(c['property_id'] for c in json.load(open('MANIFEST.json'))['checks']))"); do
+for id in ${RUN_ALL_ONLY:-$(python3 -c "import json;print(' '.join(c['property_id'] for c in json.load(open('MANIFEST.json'))['checks']))")}; do
   t0=$(date +%s)
   out="$(VERIF_SEED=$seed timeout ${RUN_ALL_TIMEOUT:-7200} ./check $id --tier $tier 2>&1)"; e=$?
   t1=$(date +%s)
